@@ -98,6 +98,7 @@ def gen_unit(rng):
     form = rng.choice(FORMS)
     g = eg.Gen(rng, ill_typed=0.05, maxdepth=3, allow_parse_selection=False)
     g.computed_names = False
+    g.heavy_regex = False      # patterns that take milliseconds to compile, times thousands of records, are C04's and C13's business
     if rng.random() < 0.03:
         # a long run over sparse records: bindings that mostly yield nothing, hundreds of times, before the ones that count
         # (anything a binding form accumulates per run shows up only here)
@@ -370,6 +371,9 @@ def run_unit(ctx, unit):
             st.inconc("watchdog")
         elif o.result == "panic":
             st.count("skipped_panic_is_C05")
+        elif unit["form"] in ("frame-names", "set-twin", "selected-under-binding", "computed-name", "recursive-macro"):
+            # hand-written forms: every one of these configurations is valid (a variable and a macro may share a name, ...)
+            st.violation("valid-bindings-rejected:" + unit["form"], "a valid configuration of bindings was rejected: %s" % o.errtext[:200], unit, {"args": args})
         else:
             st.count("skipped_configuration_error")
             st.see("config_errors", o.errtext[:80])
